@@ -35,6 +35,13 @@ def run(ctx):
             jobs += [('ord%d_%d_%d' % (i, w, un), src, args, w, 200, un, 300000) for i, (src, args, tag) in enumerate(order)]
     ctx.stats['evaluation_order_forms'] = len(order)
     suites.differential(ctx, jobs, None, label='sequential', must_compile=True)
+    # the oracle above runs on the typed tree of the real front end; a sample of the programs is also type-checked by the
+    # verified front-end model, and re-run against the model's tree wherever the two trees differ
+    seen, sample = set(), {}
+    for j in jobs:
+        if j[1] not in seen and len(sample) < ctx.budget(200, 2000):
+            seen.add(j[1]); sample['p%d' % len(sample)] = j[1]
+    suites.independent_front_end(ctx, sample, jobs)
     ctx.samples.append(dict(generated_program=jobs[-1][1][:1500], args=jobs[-1][2], w=jobs[-1][3]))
 
 
